@@ -51,9 +51,11 @@ ASSUMPTIONS = [
 ]
 FLOORS = {"quick": {"judged": 20000, "judged_included": 6000,
                     "judged_without_url": 6000,
+                    "judged_with_given_url": 6000,
                     "judged_with_exotic_line_break_chars": 4000},
           "thorough": {"judged": 400000, "judged_included": 100000,
                        "judged_without_url": 100000,
+                       "judged_with_given_url": 100000,
                        "judged_with_exotic_line_break_chars": 80000}}
 HOOK_FLOORS = {"quick": {"original_exception_compared": 2000},
                "thorough": {"original_exception_compared": 40000}}
@@ -488,6 +490,18 @@ def harmless_override(rng, p):
     return spec if o[0] == "ok" else None
 
 
+def observe_file_with_url(schema, path, url):
+    import ZConfig
+    try:
+        # newline="\n": no universal-newline translation, the loader sees
+        # the text as it is in the file
+        with open(path, encoding="utf-8", newline="\n") as f:
+            ZConfig.loadConfigFile(schema, f, url=url)
+    except Exception as e:  # noqa
+        return e
+    return None
+
+
 def observe_text(schema, text):
     import io
     import ZConfig
@@ -567,8 +581,8 @@ def judge(ctx, p, rng, dirpath):
                         spec = None
                 except ovr.NoSuchSection:
                     spec = None
-        for included in (False, True, "nourl") + (("override",)
-                                                  if spec else ()):
+        for included in (False, True, "nourl", "given-url") + (
+                ("override",) if spec else ()):
             marked = list(lines)
             for i in ok_idx:
                 if i is not None:
@@ -598,6 +612,13 @@ def judge(ctx, p, rng, dirpath):
                 want = [(ln, None) for ln, _ in want]
                 e = observe_text(p.schema, layout.texts()["b/main.conf"])
                 res.count("judged_without_url")
+            elif included == "given-url":
+                # an open, named file together with an explicit url=: the
+                # resource's URL is the one given, not the file's own
+                given = "file:///zcv-given/dir%20x/main.conf"
+                want = [(ln, given) for ln, _ in want]
+                e = observe_file_with_url(p.schema, main, given)
+                res.count("judged_with_given_url")
             elif included == "override":
                 e = observe(p.schema, main, [spec])
                 res.count("judged_with_override")
